@@ -535,6 +535,9 @@ pub fn fault_program(fault: usize, container: usize, position: usize, handler: u
         b.assign(var("M%"), num(-1)),
         // a module-level variable that is not shared: it reads 0 if execution continues in a foreign context
         b.assign(var("NS%"), num(7)),
+        // and an array that is not shared: it does not exist in a foreign context
+        b.s(K::Dim { shared: false, redim: false, vars: vec![DimVar { name: "NA%".into(), ty: None, dims: vec![(None, num(2))] }] }),
+        b.assign(Expr::Index("NA%".into(), vec![num(1)]), num(3)),
     ];
     if module_end {
         // the handler comes first and is jumped over
@@ -659,7 +662,7 @@ pub fn fault_program(fault: usize, container: usize, position: usize, handler: u
     }
     if !module_end {
     main.push(b.s(K::Label("After".into())));
-    main.push(b.print(vec![st("done"), builtin("ERR", vec![]), var("W%"), var("X%"), var("NS%")]));
+    main.push(b.print(vec![st("done"), builtin("ERR", vec![]), var("W%"), var("X%"), var("NS%"), Expr::Index("NA%".into(), vec![num(1)])]));
     main.push(b.s(K::End));
     // the handler
     main.push(b.s(K::Label("H".into())));
